@@ -4,6 +4,8 @@ acse.ACSE._negotiate_as_acceptor and ACSE._check_user_identity as effect-trace c
 Strings are z3 Strings; str.strip is an uninterpreted function STRIP (only equalities between stripped
 titles matter).  `x in [strip(s) for s in required]` is the membership Boolean of that list; the list of live
 acceptor associations is a filter-comprehension whose length `count` is a symbolic integer."""
+import ast
+
 import z3
 
 from pyvc.task import Task
@@ -260,6 +262,27 @@ class LimitTask(NegAcceptTask):
                  z3.Implies(cnt_e > mx.e, z3.BoolVal(rejects[0].args == (2, 3, 2))))
 
 
+def exception_partition(fi):
+    """How a function can tell exceptions apart is limited to the classes it names (`except X`, `isinstance(e, X)`): one
+    representative per named builtin class plus one exception of a class it cannot name (a user-defined subclass of Exception)
+    cover every behaviour of the function's own code on 'the handler raises'.  NotImplementedError is listed separately by the
+    callers (it has a documented meaning)."""
+    import builtins
+    names = []
+    for n in ast.walk(fi.node):
+        cands = []
+        if isinstance(n, ast.ExceptHandler) and n.type is not None:
+            cands = n.type.elts if isinstance(n.type, ast.Tuple) else [n.type]
+        elif isinstance(n, ast.Call) and isinstance(n.func, ast.Name) and n.func.id == "isinstance" and len(n.args) == 2:
+            cands = n.args[1].elts if isinstance(n.args[1], ast.Tuple) else [n.args[1]]
+        for c in cands:
+            nm = c.id if isinstance(c, ast.Name) else (c.attr if isinstance(c, ast.Attribute) else None)
+            cls = getattr(builtins, nm, None) if nm else None
+            if isinstance(cls, type) and issubclass(cls, Exception) and cls is not Exception and nm != "NotImplementedError" and nm not in names:
+                names.append(nm)
+    return names + ["RuntimeError"] if "RuntimeError" not in names else names
+
+
 class CheckIdentityTask(Task):
     name = "ACSE._check_user_identity"
     functions = [CHK]
@@ -292,7 +315,9 @@ class CheckIdentityTask(Task):
         # handler behaviours: 0 absent/default, 1 raises NotImplementedError, 2 raises something else, 3.. returns
         # (verdict, server response) for verdict in {True, False} x response in {None, bytes, neither (str), neither (int)}
         RESP = ["None", "bytes", "str", "int"]
+        excs = exception_partition(I.repo.func(CHK))
         behaviour = I.choose(3 + 2 * len(RESP), "handler behaviour") if has_req else 0
+        exc_name = excs[I.choose(len(excs), "class of the exception the handler raises")] if behaviour == 2 and len(excs) > 1 else excs[0]
         g["behaviour"] = behaviour
         verdict_in = None if behaviour < 3 else ((behaviour - 3) // len(RESP) == 0)
         resp_kind = None if behaviour < 3 else RESP[(behaviour - 3) % len(RESP)]
@@ -303,7 +328,7 @@ class CheckIdentityTask(Task):
             if behaviour == 1:
                 raise PyRaise(ExcVal("NotImplementedError"))
             if behaviour == 2:
-                raise PyRaise(ExcVal("RuntimeError", ("handler failed",)))
+                raise PyRaise(ExcVal(exc_name, ("handler failed",)))
             if behaviour == 0:
                 return (True, None)
             return (verdict_in, resp_val)
@@ -317,7 +342,7 @@ class CheckIdentityTask(Task):
         verdict = I.as_bool(val[0]) if isinstance(val, tuple) and len(val) == 2 else None
         want = True if (not has_req or behaviour in (0, 1)) else (False if behaviour == 2 else verdict_in)
         I.ob(f"{P}/verdict:absent-or-unimplemented-or-positive=>True,exception-or-negative=>False", verdict is want,
-             detail=f"behaviour {behaviour} (handler verdict {verdict_in}, server response {resp_kind}): {val!r}")
+             detail=f"behaviour {behaviour} (handler verdict {verdict_in}, server response {resp_kind}, raises {exc_name if behaviour == 2 else None}): {val!r}")
         item = val[1] if isinstance(val, tuple) and len(val) == 2 else "?"
         if want is not True:
             I.ob(f"{P}/a-negative-verdict-carries-no-response-item", item is None, detail=repr(val))
